@@ -228,6 +228,18 @@ func (fr *frame) autoInvariants(b *ssa.BasicBlock, li *loopInfo) []autoInv {
 			continue
 		}
 		if _, isInt := phi.Type().Underlying().(*types.Basic); !isInt {
+			// reference-typed loop variable that only ever holds nil or objects
+			// allocated in this function: it stays nil-or-fresh
+			switch phi.Type().Underlying().(type) {
+			case *types.Map, *types.Pointer:
+				if freshLeaves(phi, phi, map[ssa.Value]bool{}, 0) {
+					p := phi
+					out = append(out, autoInv{desc: phi.Name() + phiComment(phi) + " is nil or allocated here (auto)", at: func(get func(*ssa.Phi) Term) string {
+						t := get(p).S
+						return fmt.Sprintf("(or (= %s 0) (>= (rootref %s) hw!0))", t, t)
+					}})
+				}
+			}
 			continue
 		}
 		var init *ssa.Const
@@ -1155,4 +1167,30 @@ func phiMonotone(inner *ssa.Phi, base *ssa.Phi, depth int) bool {
 		return false
 	}
 	return true
+}
+
+// freshLeaves: every value flowing into v (through phis) is nil, an
+// allocation of this function, or the loop phi itself.
+func freshLeaves(v ssa.Value, self *ssa.Phi, seen map[ssa.Value]bool, depth int) bool {
+	if seen[v] {
+		return true
+	}
+	seen[v] = true
+	if depth > 6 {
+		return false
+	}
+	switch x := v.(type) {
+	case *ssa.Phi:
+		for _, e := range x.Edges {
+			if !freshLeaves(e, self, seen, depth+1) {
+				return false
+			}
+		}
+		return true
+	case *ssa.Const:
+		return x.Value == nil
+	case *ssa.MakeMap, *ssa.Alloc:
+		return true
+	}
+	return false
 }
